@@ -256,6 +256,11 @@ func (c *cluster) doWrite(client, host int, nh *dragonboat.NodeHost, key, val ui
 		op.api = "Propose"
 		op.inv = c.tick()
 		rs, err := nh.Propose(cs, cmd, timeout)
+		// "the input byte slice can be reused for other purposes immediately after the
+		// return of this method" (nodehost.go): reuse it
+		for i := range cmd {
+			cmd[i] = 0xEE
+		}
 		if err != nil {
 			op.code = c.errCode(err)
 			if op.code == c.codes["timeout"] {
